@@ -29,7 +29,55 @@ RVEC = "wannierberri/fourier/rvectors.py"
 INTP = "wannierberri/system/interpolate.py"
 PATHF = "wannierberri/grid/path.py"
 TABF = "wannierberri/result/tabresult.py"
+FFTF = "wannierberri/fourier/fft.py"
+STAT = "wannierberri/calculators/static.py"
+DYN = "wannierberri/calculators/dynamic.py"
 MUTANTS = [
+    dict(prop="C01", name="WS: iRvec_mod not reduced", file=RVEC, old="        return iRvec, Ndegen, iRvec % self.mp_grid", new="        return iRvec, Ndegen, iRvec"),
+    dict(prop="C01", name="WS: degeneracy = number of candidates", file=RVEC, old="            ndeg = len(select)\n", new="            ndeg = len(dist[i])\n"),
+    dict(prop="C01", name="WS: only the first nearest replica", file=RVEC, old="            for j in select:\n", new="            for j in select[:1]:\n"),
+    dict(prop="C01", name="remapper: weight assigned not accumulated", file=RVEC, old="                    weights[iRi, ia, ib] += 1. / nd", new="                    weights[iRi, ia, ib] = 1. / nd"),
+    dict(prop="C01", name="remapper: shift index transposed", file=RVEC, old="                ishift = self.shift_index[ia, ib]\n                for iRi, iRm, nd in zip(self.iRvec_index_list[ishift],\n                                        self.iRvec_mod_list[ishift],\n                                        self.Ndegen_list[ishift]):\n                    remapper", new="                ishift = self.shift_index[ib, ia]\n                for iRi, iRm, nd in zip(self.iRvec_index_list[ishift],\n                                        self.iRvec_mod_list[ishift],\n                                        self.Ndegen_list[ishift]):\n                    remapper"),
+    dict(prop="C01", name="q_to_R: normalisation dropped", file=RVEC, old="fftlib=self.fftlib_q2R, destroy=False) / np.prod(self.mp_grid)\n        AA_q_mp = self.remap_XX_from_grid_to_list_R", new="fftlib=self.fftlib_q2R, destroy=False) / np.prod(self.mp_grid[:2])\n        AA_q_mp = self.remap_XX_from_grid_to_list_R"),
+    dict(prop="C01", name="q_to_R: inverse transform", file=RVEC, old="        AA_q_mp = execute_fft(AA_q_mp, axes=(0, 1, 2), fftlib=self.fftlib_q2R, destroy=False) / np.prod(self.mp_grid)", new="        AA_q_mp = execute_fft(AA_q_mp, axes=(0, 1, 2), fftlib=self.fftlib_q2R, destroy=False, inverse=True)"),
+    dict(prop="C01", name="set_fft_q_to_R: k placed without modulo", file=RVEC, old="        self.kpt_mp_grid = [tuple(k) for k in kpt_red_mp_int % self.mp_grid]", new="        self.kpt_mp_grid = [tuple(k) for k in abs(kpt_red_mp_int) % self.mp_grid]"),
+    dict(prop="C01", name="remap: a and b slots swapped in the weights", file=RVEC, old="                XX_R_new[:, a, b] *= weights_new[:, ia, ib]", new="                XX_R_new[:, a, b] *= weights_new[:, ib, ia] if self.nshifts_left == self.nshifts_right else weights_new[:, ia, ib]"),
+    dict(prop="C01", name="conj_XX_R: wrong axes", file=RVEC, old="        return XX_R_new.swapaxes(1, 2).conj()", new="        return XX_R_new.swapaxes(0, 1).conj() if XX_R_new.shape[0] == XX_R_new.shape[1] else XX_R_new.swapaxes(1, 2).conj()"),
+    dict(prop="C01", name="remap_XX_R: old R not reduced to the mesh", file=RVEC, old="        for i, iR in enumerate(iRvec_old % self.mp_grid):", new="        for i, iR in enumerate(abs(iRvec_old) % self.mp_grid):"),
+    dict(prop="C01", name="PRESERVING: WS tolerance inclusive", file=RVEC, old="            select = np.where(abs(dist[i] - dist_min) < self.tolerance)[0]", new="            select = np.where(abs(dist[i] - dist_min) <= self.tolerance)[0]", expect="ok"),
+    dict(prop="C03", name="Kp_fullBZ not divided by NKFFT", file=KP, old="        return self.K / self.NKFFT", new="        return self.K"),
+    dict(prop="C03", name="get_K_list: K in z,y,x order", file=GR, old="                        K=np.array([x, y, z]) * dK,", new="                        K=np.array([z, y, x]) * dK,"),
+    dict(prop="C03", name="get_K_list: factor over the dense mesh", file=GR, old="        factor = 1. / np.prod(self.div)\n", new="        factor = 1. / np.prod(self.div * self.FFT)\n"),
+    dict(prop="C03", name="get_K_list: dK = 1/dense", file=GR, old="        dK = 1. / self.div\n        factor", new="        dK = 1. / self.dense\n        factor"),
+    dict(prop="C03", name="kpoints_all: dK scaled twice", file=DK, old="return (self.grid.points_FFT + self.dK[None]) % 1", new="return (self.grid.points_FFT + self.dK[None] / self.NKFFT[None]) % 1"),
+    dict(prop="C03", name="points_FFT: x fastest", file=GR, old="np.array([ix * dkx, iy * dky, iz * dkz]) for ix in range(self.FFT[0]) for iy in range(self.FFT[1])\n                for iz in range(self.FFT[2])", new="np.array([ix * dkx, iy * dky, iz * dkz]) for iz in range(self.FFT[2]) for iy in range(self.FFT[1])\n                for ix in range(self.FFT[0])"),
+    dict(prop="C03", name="paralfunc: dK = Kpoint.K", file=RG, old="dK=Kpoint.Kp_fullBZ, grid=_grid", new="dK=Kpoint.K, grid=_grid"),
+    dict(prop="C03", name="determineNK: floor instead of round", file=GR, old="            NKdiv = np.array(np.round(NK / NKFFT), dtype=int)\n            NKdiv[NKdiv <= 0] = 1\n        else:", new="            NKdiv = np.array(NK // NKFFT, dtype=int)\n            NKdiv[NKdiv <= 0] = 1\n        else:"),
+    dict(prop="C03", name="determineNK: non-periodic FFT kept", file=GR, old="    NKFFT[notperiodic] = 1\n", new="    pass\n"),
+    dict(prop="C03", name="dynamic: not averaged over k", file=DYN, old="restot *= self.constant_factor / (data_K.nk * data_K.cell_volume)", new="restot *= self.constant_factor / (data_K.cell_volume)"),
+    dict(prop="C03", name="static: not averaged over k", file=STAT, old="            restot /= data_K.nk\n", new="            restot /= 1\n"),
+    dict(prop="C03", name="PRESERVING: Kp_fullBZ via reciprocal", file=KP, old="        return self.K / self.NKFFT", new="        return self.K * (1. / self.NKFFT)", expect="ok"),
+    dict(prop="C02", name="fft: numpy path not rescaled", file=FFTF, old="            AAA_K *= np.prod(self.NKFFT)\n", new="            AAA_K *= (np.prod(self.NKFFT) if self.lib == 'fftw' else np.prod(self.NKFFT[:2]))\n"),
+    dict(prop="C02", name="fft: fftw plan forward", file=FFTF, old="                direction='FFTW_BACKWARD')\n\n        self.nRvec", new="                direction='FFTW_FORWARD')\n\n        self.nRvec"),
+    dict(prop="C02", name="fft: slow exponent sign", file=FFTF, old="return [np.exp(2j * np.pi / self.NKFFT[i]) ** np.arange(self.NKFFT[i]) for i in range(3)]", new="return [np.exp(-2j * np.pi / self.NKFFT[i]) ** np.arange(self.NKFFT[i]) for i in range(3)]"),
+    dict(prop="C02", name="fft: slow exponent index without k", file=FFTF, old="self.exponent[i][(k[i] * R[i]) % self.NKFFT[i]]", new="self.exponent[i][(R[i]) % self.NKFFT[i]]"),
+    dict(prop="C02", name="fft: k-list phase sign", file=FFTF, old="return np.exp(2j * np.pi * (self.k_list @ self.iRvec.T))", new="return np.exp(-2j * np.pi * (self.k_list @ self.iRvec.T))"),
+    dict(prop="C02", name="fft: R placed with abs instead of modulo", file=FFTF, old="            self.iRvec = self.iRvec % self.NKFFT\n", new="            self.iRvec = abs(self.iRvec) % self.NKFFT\n"),
+    dict(prop="C02", name="fft: R placement assigns instead of accumulating", file=FFTF, old="                AAA_K[tuple(irvec)] += AAA_R[ir]", new="                AAA_K[tuple(irvec)] = AAA_R[ir]"),
+    dict(prop="C02", name="fft: hermitian axes for the k-list path", file=FFTF, old="            self.axes_hermitean = (1, 2)", new="            self.axes_hermitean = (0, 1)"),
+    dict(prop="C02", name="fft: antihermitian sign on hermitian", file=FFTF, old="            AAA_K = 0.5 * (AAA_K + AAA_K.swapaxes(*self.axes_hermitean).conj())", new="            AAA_K = 0.5 * (AAA_K + AAA_K.swapaxes(*self.axes_hermitean))"),
+    dict(prop="C02", name="rvec: expdK sign", file=RVEC, old="self.expdK = np.exp(2j * np.pi * self.iRvec.dot(self.dK))", new="self.expdK = np.exp(-2j * np.pi * self.iRvec.dot(self.dK))"),
+    dict(prop="C02", name="rvec: derivative factor -i", file=RVEC, old="        return 1j * XX_R.reshape((XX_R.shape) + (1,))", new="        return -1j * XX_R.reshape((XX_R.shape) + (1,))"),
+    dict(prop="C02", name="rvec: shifts sign in cRvec_shifted", file=RVEC, old="return self.cRvec[:, None, None, :] + self.shifts_diff_cart[None, :, :, :]", new="return self.cRvec[:, None, None, :] - self.shifts_diff_cart[None, :, :, :]"),
+    dict(prop="C02", name="rvec: shifts_diff left/right swapped", file=RVEC, old="return -self.shifts_left_cart[:, np.newaxis] + self.shifts_right_cart[np.newaxis, :]", new="return -self.shifts_left_cart[np.newaxis, :] + self.shifts_right_cart[:, np.newaxis]"),
+    dict(prop="C02", name="rvec: derivative applied der+1 times when hermitian", file=RVEC, old="        for i in range(der):\n            XX_R = self.derivative(XX_R)", new="        for i in range(der + (1 if (hermitian and der == 1) else 0)):\n            XX_R = self.derivative(XX_R)"),
+    dict(prop="C02", name="dataK: HH_K not hermitised", file=DKR, old="return self.rvec.R_to_k(self.Ham_R, hermitian=True)", new="return self.rvec.R_to_k(self.Ham_R, hermitian=False)"),
+    dict(prop="C02", name="dataK: rotate with U not U^dagger", file=DK, old="return cached_einsum('kba,kbc...,kcd->kad...', self.UU_K.conj(), mat, self.UU_K)", new="return cached_einsum('kab,kbc...,kcd->kad...', self.UU_K.conj(), mat, self.UU_K)"),
+    dict(prop="C02", name="dataK: kpoints_all minus dK", file=DK, old="return (self.grid.points_FFT + self.dK[None]) % 1", new="return (self.grid.points_FFT - self.dK[None]) % 1"),
+    dict(prop="C02", name="grid: points_FFT z fastest -> x fastest", file=GR, old="np.array([ix * dkx, iy * dky, iz * dkz]) for ix in range(self.FFT[0]) for iy in range(self.FFT[1])\n                for iz in range(self.FFT[2])", new="np.array([ix * dkx, iy * dky, iz * dkz]) for iz in range(self.FFT[2]) for iy in range(self.FFT[1])\n                for ix in range(self.FFT[0])"),
+    dict(prop="C02", name="dataK: Xbar memo key without der", file=DKR, old="        key = (name, der)\n        if key not in self._bar_quantities:", new="        key = (name, min(der, 1))\n        if key not in self._bar_quantities:", expect="ok"),
+    dict(prop="C02", name="PRESERVING: rescale written as product of three", file=FFTF, old="            AAA_K *= np.prod(self.NKFFT)\n", new="            AAA_K *= self.NKFFT[0] * self.NKFFT[1] * self.NKFFT[2]\n", expect="ok"),
+    dict(prop="C02", name="PRESERVING: expdK via three factors", file=RVEC, old="self.expdK = np.exp(2j * np.pi * self.iRvec.dot(self.dK))", new="self.expdK = np.exp(2j * np.pi * self.iRvec[:, 0] * self.dK[0]) * np.exp(2j * np.pi * self.iRvec[:, 1] * self.dK[1]) * np.exp(2j * np.pi * self.iRvec[:, 2] * self.dK[2])", expect="ok"),
     dict(prop="C30", name="to_grid: index uses grid[0] stride", file=TABF, old="ind_grid = kpoints_int[:, 2] + grid[2] * (kpoints_int[:, 1] + grid[1] * kpoints_int[:, 0])", new="ind_grid = kpoints_int[:, 2] + grid[2] * (kpoints_int[:, 1] + grid[0] * kpoints_int[:, 0])"),
     dict(prop="C30", name="to_grid: meshgrid xy indexing", file=TABF, old="indexing='ij')).reshape((3, -1), order=order).T", new="indexing='xy')).reshape((3, -1), order=order).T"),
     dict(prop="C30", name="to_grid: no modulo (k outside the cell)", file=TABF, old="        kpoints_int = kpoints_int % grid[None, :]\n", new="        kpoints_int = abs(kpoints_int) % grid[None, :]\n"),
